@@ -241,9 +241,17 @@ def grouping_case(ctx, rng):
     circ = Circuit([vlib.to_tangelo_gate(g) for g in state], n_qubits=n)
     sim = get_backend("cirq")
     hists = {}
-    for b in groups:
+    # the histograms come back in any order (job completion order): the two dictionaries are keyed by basis, not aligned
+    order = list(groups)
+    how = rng.choice(["same", "reversed", "shuffled"])
+    if how == "reversed":
+        order.reverse()
+    elif how == "shuffled":
+        rng.shuffle(order)
+    for b in order:
         f, _ = sim.simulate(circ + Circuit(measurement_basis_gates(b), n_qubits=n))
         hists[b] = f
+    ctx.count("grouping:histogram-order=" + how)
     val = exp_value_from_measurement_bases(groups, hists)
     ref = sim.get_expectation_value(op, circ)
     if abs(val - ref) > 1e-8:
